@@ -772,7 +772,7 @@ func main() {
 		r.Set("outcome:"+classNames[c], perClass[c])
 	}
 
-	r.Set("outcome:timeout_wall_clock", len(hangs))
+	r.Set("outcome:timeout", len(hangs))
 	r.Set("outcome:worker_died", deaths)
 	r.Set("evaluations_per_driver", perDriver)
 	r.Set("workers", nWorkers)
@@ -801,7 +801,7 @@ func main() {
 		}
 	}
 
-	r.Rule(fmt.Sprintf("every token sequence up to the phase's length over a %d-token alphabet (as whole text, inside func main, one token per console line) and every single-token deletion, duplication, adjacent swap and substitution by each alphabet token of %d seed programs (thorough: plus pairs of edits on %d core seeds), each through the drivers named in the phase list; distinct = a (driver, text) pair whose text executed at least one bytecode instruction of its own", len(alphabet), len(seedText), len(coreSeeds)))
+	r.Rule(fmt.Sprintf("every token sequence up to the phase's length over a %d-token alphabet (as whole text, inside func main, one token per console line) and every single-token deletion, duplication, adjacent swap and substitution by each alphabet token of %d seed programs (thorough: plus length-4 sequences over a %d-token core alphabet and pairs of edits on %d core seeds), each through the driver named in the phase (see the phase:* keys); distinct = a (driver, text) pair whose text executed at least one bytecode instruction of its own", len(alphabet), len(seedText), len(coreAlphabet), len(coreSeeds)))
 
 	// ---- triage of the candidates -----------------------------------------------
 	// One root cause shows through every driver and in hundreds of texts: the
